@@ -332,17 +332,41 @@ fn check_kept_records(cfg: &Config, out: &EvalOut, ri: usize, rep: &mut RunRepor
         }
         let job = &gv.jobs[j];
         *rep.probes.entry("c09_never_started_jobs_checked").or_insert(0) += 1;
-        let mut keys = vec![job.id.clone(), format!("{}!!!", job.id)];
-        for (u, _) in job.ups.iter() {
-            keys.push(format!("{}!!!{}", gv.jobs[*u].id, job.id));
+        let mut keys: Vec<(String, Option<(usize, Vec<String>)>)> = vec![(job.id.clone(), None), (format!("{}!!!", job.id), None)];
+        for (u, consumed) in job.ups.iter() {
+            keys.push((format!("{}!!!{}", gv.jobs[*u].id, job.id), Some((*u, consumed.clone()))));
         }
-        for k in keys {
+        for (k, edge) in keys {
             // dependency records: a textual refresh that the configured comparison judges
             // unaltered is not a loss (C15); own records must be byte-identical
-            let same = match (out.h_in.get(&k), h_out.get(&k)) {
-                (Some(a), Some(b)) if k.contains("!!!") && !k.ends_with("!!!") => records_equal(cfg, a, b),
+            let mut same = match (out.h_in.get(&k), h_out.get(&k)) {
+                (Some(a), Some(b)) if edge.is_some() => records_equal(cfg, a, b),
                 (a, b) => a == b,
             };
+            if !same {
+                if let Some((u, consumed)) = &edge {
+                    // the record may have moved to the upstream's new name (a validly skipped job
+                    // below a renamed multi-output upstream that was re-labelled upstream-failed gets
+                    // its record re-written under the current name): what counts is that what the
+                    // job's records say it consumed from this upstream is unaltered
+                    let before = recorded_input(cfg, gv, &out.h_in, *u, j, consumed);
+                    let after = recorded_input(cfg, gv, h_out, *u, j, consumed);
+                    match (before, after) {
+                        (Ok(Some(a)), Ok(Some(b))) => {
+                            if let Ok(false) = altered(cfg, &gv.jobs[*u].parts, Some(consumed.as_slice()), &a, &b) {
+                                *rep.probes.entry("c09_dependency_record_moved_to_new_upstream_name").or_insert(0) += 1;
+                                same = true;
+                            }
+                        }
+                        (Err(()), _) | (_, Err(())) => {
+                            *rep.discarded.entry("c09_ambiguous_recorded_input").or_insert(0) += 1;
+                            same = true;
+                        }
+                        (Ok(None), Ok(None)) => same = true,
+                        _ => {}
+                    }
+                }
+            }
             if !same {
                 push(
                     rep,
